@@ -6,6 +6,12 @@ V = os.path.dirname(os.path.dirname(os.path.abspath(__file__)))
 TB = "rustc nightly 1.97 MIR of the dev profile is faithful (same semantics as the stable build the tests use); std behaves as documented; the engine's dominator/term/idiom machinery (guarded by mutant self-tests and instance floors); see DESIGN.md section 7"
 
 CLAIMED = {
+ "C01": ("T5 untrusted-input dataflow over MIR: callee panic preconditions (derived from callee MIR, substituted at call sites) that depend on numbers parsed from the text must be excluded by dominating, still-valid guards in from_str; T3 guard for m % r",
+         "Clause-level structural decision for ALL input strings at once: no panic site whose condition depends on a parsed number is reachable without a dominating guard on that number; stored degrees are guarded by m % r == 0; set() writes both directions under the pairing guard. The print/parse round-trip identities are value-level and NOT decided.", "4/C01"),
+ "C04": ("T3 guard-dominates-effect (degree comparison between self and other dominates every extension of a morphism; degrees_match dominates every pair queued in fold), T2 required dependence, T4 range/constant slots (inclusive index ranges, base chamber 1, candidate range 2..=size)",
+         "Clause-level structural decision: necessary conditions of degree preservation, of is_minimal/minimal_image agreeing on one relation, and of range completeness hold on every path. Minimality/uniqueness of the quotient and exactness of the automorphism list are NOT decided.", "4/C04"),
+ "C11": ("T4 constant slot (subgroup scans start at canon(base row 0)), T2 required dependence (representatives read table.get), T9 construct-through (compact() on every return; who-may-call CosetTable::set), T3 guards in scan_and_connect",
+         "Clause-level structural decision: necessary conditions of 'H fixes row 0', 'representatives trace to their rows', 'no dead rows' and inverse-consistency of entries hold for every presentation. Correctness/termination of Todd-Coxeter itself is NOT decided.", "4/C11"),
  "C02": ("T5 range-guard dataflow over MIR: every panicking operation fed by an integer argument of the basic queries is dominated by a valid range guard (callee preconditions derived from callee MIR)",
          "Clause-level structural decision for ALL index pairs and chambers at once: totality of op/r/m/v in the four representations (no panic through arguments; out-of-range reaches None). Involution, orbit lengths, agreement of representations and traversal semantics are value-level and NOT decided.", "4/C02"),
  "C10": ("T1 write-through over every MIR body (all writers of FreeWord.w pass through normalized) + guard shape of normalized + type facts",
